@@ -826,7 +826,7 @@ func runC16(ctx *harness.Ctx) {
 			ps := append([]gen.Piece(nil), c.Pieces...)
 			cased := gen.Recase(t, ps)
 			tail := gen.Respace(t, ps, gen.RenderOpts{})
-			re := gen.Text(ps, tail)
+			re := gen.Text(ps, tail) + gen.EOFComment(t)
 			if fp := farPrefix(t, 150, false); fp != "" {
 				re = fp + re // a very large leading gap is a re-spelling too
 				ctx.Class("far-offset")
